@@ -185,6 +185,11 @@ def entries():
                                           init=numpy.array([[0.0, 0.0], [9.0, 9.0]]) + k),
                    [("max_iter", v(10, 30)), ("n_init", v(2, 4)), ("tol", v(1e-3, 1e-4))],
                    data_clu, ["predict", "transform"], seed="rs", bad=[("n < k", _bad_too_few), ("weights", _bad_l1_weights)]))
+    E.append(Entry("KMeansL1L2[L1,global seed]",
+                   # random_state=None: the fit draws from the global NumPy generator, so numpy.random.seed is the seed
+                   lambda k: M.KMeansL1L2(n_clusters=[3, 4][k], norm="L1", n_init=1, random_state=None, max_iter=[3, 20][k], init="random"),
+                   [("max_iter", v(2, 30)), ("n_clusters", v(3, 4))],
+                   lambda rng: data_clu(rng, n=rng.randint(14, 24)), ["predict", "transform"], seed="global", bad=[("n < k", _bad_too_few)]))
     E.append(Entry("ConstraintKMeans[weights]",
                    # (variant 1: random initial labels and many clusters for the data: clusters run empty and are relocated)
                    lambda k: M.ConstraintKMeans(n_clusters=[2, 8][k], strategy="weights", max_iter=[21, 10][k], random_state=[0, 1][k], n_init=2,
@@ -310,6 +315,11 @@ def entries():
     E.append(Entry("SkBaseTransformLearner",
                    lambda k: SkBaseTransformLearner([_logreg(), _dtc(2)][k], method=["predict_proba", "predict"][k]),
                    [("model__random_state", v(1, 2)), ("method", v("predict", "predict_proba")), ("model", [_logreg, lambda: _dtc(1)])],
+                   data_clf, ["transform"]))
+    E.append(Entry("SkBaseTransformLearner[containers]",
+                   # own keyword parameters whose values are containers (kept by SkLearnParameters, handed back by get_params)
+                   lambda k: SkBaseTransformLearner(_logreg(), method="predict_proba", tags=[["a", "b"], []][k], options=[dict(x=1), dict()][k]),
+                   [("tags", [lambda: ["c"], lambda: ["a", "b", "c"]]), ("options", [lambda: dict(y=2), lambda: dict(x=1, y=[1, 2])])],
                    data_clf, ["transform"]))
     E.append(Entry("SkBaseTransformLearner[nested]",
                    lambda k: SkBaseTransformLearner(_pipe_clf([1.0, 0.5][k]), method=["predict_proba", "predict"][k]),
